@@ -36,10 +36,37 @@ IsAlignment(r) ==
     /\ r.st = "ok"
     /\ {"score", "xstart", "xend", "ystart", "yend", "xlen", "ylen", "mode", "ops"} \subseteq DOMAIN r
 
+\* largest entry of the substitution table (upper bound of any alignment score: every aligned pair
+\* contributes at most this much, gaps and clips contribute <= 0)
+MaxS(S) == LET RECURSIVE F(_, _)
+               F(i, j) == IF i > Len(S) THEN -1000000
+                          ELSE IF j > Len(S[i]) THEN F(i + 1, 1)
+                          ELSE Max2(S[i][j], F(i, j + 1))
+           IN F(1, 1)
+
+\* inputs of more than a thousand symbols that are related (equal, one contained in the other): the DP
+\* is out of TLC's reach, so optimality is judged by bounds: the result is a valid alignment whose score
+\* is its rescoring, not below the score of any witness alignment the driver knows by construction (each
+\* witness is itself checked to be an alignment of x and y, so a wrong witness cannot accuse the code),
+\* and not above |shorter| * best pair score. For equal / contained inputs under match >= 0 >= mismatch
+\* scorings the two bounds coincide. The calls after it on the same object are judged exactly.
+PairwiseBigExplains(cfg, c, r) ==
+    LET md == ModeOf(c.op)
+        sc == Effective(Scheme(cfg), md)
+        x  == c.a.x   y == c.a.y
+    IN  /\ r.mode = ModeCode(md)
+        /\ ValidAlignment(r, x, y, sc, md \in {"custom", "global"})
+        /\ r.score <= Max2(0, MaxS(cfg.S)) * Min2(Len(x), Len(y))
+        /\ \A i \in 1..Len(c.a.wit) :
+              LET w == c.a.wit[i] IN
+              /\ ValidShape(w, x, y, TRUE)
+              /\ r.score >= Rescore(w, x, y, sc, FALSE)
+
 PairwiseExplains(cfg, c, r) ==
     /\ c.op \in {"custom", "global", "semiglobal", "local"}
     /\ IsAlignment(r)
-    /\ LET md == ModeOf(c.op)
+    /\ IF "wit" \in DOMAIN c.a THEN PairwiseBigExplains(cfg, c, r) ELSE
+       LET md == ModeOf(c.op)
            sc == Effective(Scheme(cfg), md)
        IN  /\ r.mode = ModeCode(md)
            /\ ValidAlignment(r, c.a.x, c.a.y, sc, md \in {"custom", "global"})
@@ -63,13 +90,6 @@ BigExplains(cfg, c, r) ==
            THEN Sentinel(r)
            ELSE r.score > MIN_SCORE /\ r.xlen = c.a.xlen /\ r.ylen = c.a.ylen
 
-\* largest entry of the substitution table (upper bound of any alignment score: every aligned pair
-\* contributes at most this much, gaps and clips contribute <= 0)
-MaxS(S) == LET RECURSIVE F(_, _)
-               F(i, j) == IF i > Len(S) THEN -1000000
-                          ELSE IF j > Len(S[i]) THEN F(i + 1, 1)
-                          ELSE Max2(S[i][j], F(i, j + 1))
-           IN F(1, 1)
 \* long inputs with a planted copy (big = 2): the band size (hook) decides between the sentinel and a
 \* real alignment; validity and rescoring are checked, optimality only against the trivial bound
 PlantedExplains(cfg, c, r) ==
